@@ -309,6 +309,22 @@ func (c *GSCall) EndedBy(step int) bool {
 	return ok && e <= step
 }
 
+// DescribeFor lists the model's requests carrying tid (debugging aid for oracle messages).
+func (g *GS) DescribeFor(tid datatransfer.TransferID) string {
+	out := ""
+	for _, r := range g.out {
+		if m := dtOf(r.exts); m != nil && m.TransferID() == tid {
+			out += fmt.Sprintf("out{id=%s state=%d sent=%v inc=%d traversed=%d remoteDone=%v pauseReq=%v} ", r.id.String()[30:], r.state, r.sent, r.inc, r.traversed, r.remoteDone, r.pauseReq)
+		}
+	}
+	for _, x := range g.in {
+		if m := dtOf(x.req.exts); m != nil && m.TransferID() == tid {
+			out += fmt.Sprintf("in{id=%s state=%d inc=%d pos=%d pauseSig=%v errSig=%v stepping=%v} ", x.id.String()[30:], x.state, x.inc, x.pos, x.pauseSig, x.errSig, x.stepping)
+		}
+	}
+	return out
+}
+
 // ActiveFor reports whether a live (not finished, not requester-cancelled) graphsync request carries the
 // data-transfer id tid on this endpoint.
 func (g *GS) ActiveFor(tid datatransfer.TransferID) bool {
@@ -333,12 +349,22 @@ func (g *GS) logCall(c GSCall) int {
 	c.gs = g
 	c.Step = g.w.S.Steps
 	g.Calls = append(g.Calls, c)
+	if LogAll {
+		ids := ""
+		if c.Kind != "register" && c.Kind != "unregister" {
+			ids = c.ID.String()
+		}
+		g.w.Logf("gs %s API %s id=%s name=%s", short(g.self), c.Kind, ids, c.Name)
+	}
 	return len(g.Calls) - 1
 }
 
 func (g *GS) setErr(i int, err *error) {
 	if *err != nil {
 		g.Calls[i].Err = (*err).Error()
+		if LogAll {
+			g.w.Logf("gs %s API %s -> %v", short(g.self), g.Calls[i].Kind, *err)
+		}
 	}
 }
 
@@ -1190,6 +1216,21 @@ func (g *GS) runIn(x *inResp) {
 			// the block of this transaction is still part of the message, then the request fails
 			g.sendResp(x, graphsync.PartialResponse, []gsItem{it}, exts)
 			g.finishIn(x, graphsync.RequestFailedUnknown, nil)
+			return
+		}
+		if paused && x.errSig != nil {
+			// Idealisation (documented in DESIGN 3.3): a cancel that arrived while this block was being processed
+			// wins over a pause that takes effect at the same block. Real graphsync picks between its pause and
+			// error signals at random and can park the response with the cancel still pending; that is graphsync's
+			// race and must not be blamed on data-transfer.
+			g.sendResp(x, graphsync.PartialResponse, []gsItem{it}, exts)
+			err := x.errSig
+			x.errSig = nil
+			if errors.Is(err, errCancelledByCommand) {
+				g.finishIn(x, graphsync.RequestCancelled, nil)
+			} else {
+				g.finishIn(x, graphsync.RequestFailedUnknown, nil)
+			}
 			return
 		}
 		if paused {
